@@ -36,9 +36,11 @@ import (
 	"verifharness/hx"
 	"verifharness/jar"
 	"verifharness/macho"
+	"verifharness/magic"
 	"verifharness/pe"
 	"verifharness/pgp"
 	"verifharness/ps"
+	"verifharness/vsix"
 	"verifharness/xsig"
 	"verifharness/ziprw"
 )
@@ -66,6 +68,8 @@ var handlers = map[string]func([]string) string{
 	"C09":   c09.Handle,
 	"C19":   c19.Handle,
 	"XSIG":  xsig.Handle,
+	"MAGIC": magic.Handle,
+	"VSIX":  vsix.Handle,
 }
 
 // gens: property -> generators whose ops make up its correspondence run
@@ -155,6 +159,9 @@ func init() {
 		if p == "C02" {
 			gens[p] = append(gens[p], forProp(p, cms.Gen))
 		}
+		if p == "C01" || p == "C11" {
+			gens[p] = append(gens[p], forProp(p, magic.Gen))
+		}
 		if p == "C11" {
 			gens[p] = append(gens[p], c11.Gen)
 			gens[p] = append(gens[p], forProp(p, pgp.Gen))
@@ -179,6 +186,7 @@ func init() {
 			gens[p] = append(gens[p], forProp(p, xsig.Gen))
 			gens[p] = append(gens[p], forProp(p, deb.Gen))
 			gens[p] = append(gens[p], forProp(p, appx.Gen))
+			gens[p] = append(gens[p], forProp(p, vsix.Gen))
 		}
 	}
 }
